@@ -42,6 +42,13 @@ func init() {
 						}
 					}
 				}
+				// every combination of the grammar's optional parts on one release shape, padded on both sides
+				for _, s := range phaseTemplates(eco, tier) {
+					if has(vs, s) {
+						continue
+					}
+					out = append(out, &Config{ID: fmt.Sprintf("C18/V/%s/parts/%s", eco, s), Pkg: zzhPkg, Func: "C18V", Args: []ArgSpec{ArgStr(eco), ArgTmpl(s), ArgTmpl("{w}"), ArgTmpl("{w}"), ArgTmpl(third[0])}})
+				}
 				// raw mode: all ASCII strings up to 3 (quick) / 4 bytes, padded by one byte each side
 				nraw := 3
 				if tier == "thorough" {
@@ -71,6 +78,12 @@ func init() {
 						}
 					}
 				}
+				// ... and the same combinations as the bound of a comparator range
+				if ops := opsTable[eco].ops; len(ops) > 0 {
+					for i, b := range rangeSafe(eco, phaseTemplates(eco, "quick")) {
+						rs = append(rs, ops[i%len(ops)]+b)
+					}
+				}
 				for _, r := range rs {
 					for _, pd := range pads[:2] {
 						out = append(out, &Config{ID: fmt.Sprintf("C18/R/%s/%s/%q|%q", eco, r, pd[0], pd[1]), Pkg: zzhPkg, Func: "C18R", Args: []ArgSpec{ArgStr(eco), ArgTmpl(r), ArgTmpl(pd[0]), ArgTmpl(pd[1]), ArgTmpl(third[0])}})
@@ -80,7 +93,7 @@ func init() {
 			return out
 		},
 		Bounds: func(tier string) string {
-			return "versions: 8 (quick) / 20 (thorough) grammar templates per ecosystem, the free-run template and every accepted prefix decoration (v, V, =, v=, release-, rel-) plus all ASCII strings of length <= 3 / 4; ranges: 10 / 30 templates (comparator and shorthand forms) plus up to 4 comparator ranges whose bound admits upper-case letters; paddings of 0-2 bytes per side drawn from space, tab, CR, LF; comparison against 2 further version templates"
+			return "versions: 8 (quick) / 20 (thorough) grammar templates per ecosystem, the free-run template and every accepted prefix decoration (v, V, =, v=, release-, rel-) plus all ASCII strings of length <= 3 / 4; ranges: 10 / 30 templates (comparator and shorthand forms) plus up to 4 comparator ranges whose bound admits upper-case letters; paddings of 0-2 bytes per side drawn from space, tab, CR, LF; comparison against 2 further version templates; the part-combination templates (phaseTemplates) as versions padded on both sides and as comparator bounds"
 		},
 	})
 }
